@@ -68,10 +68,14 @@ def select__intersect_and_except_operators(self: XPathToken, context: ta.Context
     if context is None:
         raise self.missing_context()
 
-    s1, s2 = set(self[0].select(copy(context))), set(self[1].select(copy(context)))
-    if any(not isinstance(x, XPathNode) for x in s1) \
-            or any(not isinstance(x, XPathNode) for x in s2):
-        raise self.error('XPTY0004', 'only XPath nodes are allowed')
+    s1: set[XPathNode] = set()
+    s2: set[XPathNode] = set()
+    for k, operand in enumerate((s1, s2)):
+        for item in self[k].select(copy(context)):
+            if not isinstance(item, XPathNode):
+                # Checked before adding: maps, arrays and functions are not hashable
+                raise self.error('XPTY0004', 'only XPath nodes are allowed')
+            operand.add(item)
 
     if self.symbol == 'except':
         yield from cast(list[XPathNode], sorted(s1 - s2, key=node_position))
